@@ -94,3 +94,17 @@ Section Finer.
         near_parent r pr /\ near_parent c pc /\ 0 <= pr < rows /\ 0 <= pc < cols /\
         G r c = (Some lo, Some hi) /\ prescribed pr pc lo hi.
 End Finer.
+
+(* ------------------------------------------------------------------ observing a trace *)
+
+Definition ev_scale (e : ev) : Z := match e with Ev _ _ sc _ => sc end.
+Definition ev_kind (e : ev) : kind := match e with Ev _ k _ _ => k end.
+Definition ev_is (id : Z) (right : bool) (e : ev) : bool :=
+  match e with Ev i _ _ r => (i =? id) && Bool.eqb r right end.
+
+(* the scales at which the step named [id] was executed on the left (right) data, in order *)
+Definition exec_scales (id : Z) (right : bool) (tr : list ev) : list Z :=
+  map ev_scale (filter (ev_is id right) tr).
+
+(* n-1, n-2, ..., 0 *)
+Definition all_scales (n : nat) : list Z := map Z.of_nat (rev (seq 0 n)).
